@@ -572,14 +572,19 @@ impl Session {
     }
 }
 
-/// Next lower region-supported data rate, if any.
+/// Next lower region-supported data rate that the enabled channels can carry, if any.
 fn next_lower_datarate(region: &region::Configuration, current: DR) -> Option<DR> {
     let current = current as u8;
     if current == 0 {
         return None;
     }
+    let channel_mask = region.channel_mask_get();
     for candidate in (0..current).rev() {
-        if region.get_datarate(candidate).is_some() {
+        // Stepping to a data rate without an enabled channel of its bandwidth (fixed channel
+        // plans) would leave channel selection without a candidate.
+        if region.get_datarate(candidate).is_some()
+            && region.channel_mask_validate(&channel_mask, Some(DR::from(candidate)))
+        {
             return Some(DR::from(candidate));
         }
     }
